@@ -47,6 +47,17 @@ def run(tier, seed, replay):
             k = c06.to_case(c, "UB")
             k["inel"] = c.get("inel", [])
             cases.append(k)
+        # family UL: bindings whose l-value path depends on a data field, updated through B[field]; the paths the
+        # instance holds afterwards are compared with those of a fresh creation
+        res3 = vlib.tlc("MCInstance", cfg="MCInstance_UL", workers=6, timeout=900)
+        vlib.tlc_expect_ok(res3, "MCInstance UL")
+        ck.add_tlc(res3)
+        for c in res3.cases:
+            if any(h.get("op") == "bm" for h in c["hist"]):
+                k = c06.to_case(c, "UL")
+                k["inel"] = []
+                k["paths"] = True
+                cases.append(k)
     records = semrun.replay(cases, rnd, nvariants=1 if tier == "quick" else 2, chunk=120)
     applied = 0
     for rec in records:
